@@ -1,16 +1,22 @@
 #!/usr/bin/env python3
 """Archive confirmed seeded changes from /tmp/seed/out into /verif/seeded/<ID>/ with what was run and what detected them.
 Reads /tmp/confirm-summary*.txt (tools/confirm_seed.sh) and /tmp/seedres-summary.txt + /tmp/seedres-*.txt (tools/try_seed.sh)."""
-import glob, json, os, re, shutil
+import glob, json, os, re, shutil, sys
+ROUND = sys.argv[1] if len(sys.argv) > 1 else "1"
+OUT = "/tmp/seed/out" if ROUND == "1" else "/tmp/seed/out2"
+CONF = "/tmp/confirm-summary*.txt" if ROUND == "1" else "/tmp/confirm2-summary*.txt"
+SUMM = "/tmp/seedres-summary.txt" if ROUND == "1" else "/tmp/seedres2-summary.txt"
+RES = "/tmp/seedres-" if ROUND == "1" else "/tmp/seedres2-"
+SUFFIX = "" if ROUND == "1" else "R2-"
 conf = {}
-for f in glob.glob('/tmp/confirm-summary*.txt') + ['/tmp/confirm-ok.txt']:
+for f in glob.glob(CONF) + (['/tmp/confirm-ok.txt'] if ROUND == '1' else []):
     if os.path.exists(f):
         for l in open(f):
             m = re.match(r'(c\d+-\d+) confirmed=(YES|NO)', l)
             if m and (m.group(2) == 'YES' or m.group(1) not in conf):
                 conf[m.group(1)] = l.strip() if m.group(2) == 'YES' else conf.get(m.group(1), l.strip())
 runs = {}   # seed -> list of (prop, rc) latest per prop
-for l in open('/tmp/seedres-summary.txt'):
+for l in open(SUMM):
     m = re.match(r'(c\d+-\d+) under (C\d+): try_seed rc=(\d+)', l) or re.match(r'(c\d+-\d+) rc=try_seed rc=(\d+)', l)
     if not m:
         continue
@@ -20,7 +26,7 @@ for l in open('/tmp/seedres-summary.txt'):
         s, rc = m.groups(); p = s.split('-')[0].upper()
     runs.setdefault(s, {})[p] = int(rc)
 def first_violation(seed, prop):
-    for cand in (f'/tmp/seedres-{seed}-{prop}.txt', f'/tmp/seedres-{seed}.txt'):
+    for cand in (f'{RES}{seed}-{prop}.txt', f'{RES}{seed}.txt'):
         if os.path.exists(cand):
             for l in open(cand):
                 m = re.match(r'VIOLATION property=(C\d+) replay=(\S+)(.*)', l)
@@ -33,12 +39,12 @@ def first_violation(seed, prop):
                     return (m.group(3).strip() + ' ' + what).strip()
     return ''
 n = 0
-for d in sorted(glob.glob('/tmp/seed/out/c*-[0-9]')):
+for d in sorted(glob.glob(OUT + '/c*-[0-9]')):
     s = os.path.basename(d)
     if s not in conf or 'confirmed=YES' not in conf[s] or s not in runs:
         continue
     meta = json.load(open(os.path.join(d, 'meta.json')))
-    ident = s.upper()
+    ident = s.upper() if ROUND == '1' else s.split('-')[0].upper() + '-' + SUFFIX + s.split('-')[1]
     dst = os.path.join('/verif/seeded', ident)
     shutil.rmtree(dst, ignore_errors=True)
     shutil.copytree(d, dst)
